@@ -202,6 +202,8 @@ def _one(inp: Dict[str, Any], pids: PayloadIds, t0: float, opts: Dict[str, Any],
             primitives=bool(opts.get("events", False)),
             stage_hook=(lambda nm, s: hook(nm, s, inp)) if hook else None,
             stage_states=bool(opts.get("stages", True)) or True,
+            names=bool(opts.get("names", False)),
+            reload_between=bool(opts.get("reload", False)) and bool(inp.get("reload", True)),
         )
         dt = time.time() - t0
         case = _compact_case(beh, opts.get("stages", True), opts.get("events", False))
@@ -226,6 +228,8 @@ def record_domain(
     cap: int = 60,
     derive: Optional[Dict[str, str]] = None,
     drop_cases: bool = False,
+    names: bool = False,
+    reload: bool = False,
 ) -> List[Dict[str, Any]]:
     """Run the real code over `inputs` in `jobs` processes; write `shards`
     JSON files under outdir; return per-shard results (path, summaries)."""
@@ -236,7 +240,7 @@ def record_domain(
     order = sorted(range(len(inputs)), key=lambda i: -len(inputs[i].get("g", [])))
     for j, i in enumerate(order):
         parts[j % shards].append(inputs[i])
-    opts = {"stages": stages, "events": events, "hook": hook, "cap": cap, "derive": derive, "drop_cases": drop_cases}
+    opts = {"stages": stages, "events": events, "hook": hook, "cap": cap, "derive": derive, "drop_cases": drop_cases, "names": names, "reload": reload}
     tasks = [(k, parts[k], outdir, opts) for k in range(shards)]
     ctx = mp.get_context("fork")
     with ctx.Pool(min(jobs, shards)) as pool:
